@@ -18,14 +18,15 @@ def pre(tier):
     return dict(oracle_checked=ref.self_check(2))
 
 
-def h_diag_pauli(env, N, i0, causal):
+def h_diag_pauli(env, N, i0, causal, form='pauli'):
     M = Mods(env)
     g = env.bits('g', (2 * N,))
     p = env.signs('sign', (1,))[0]
     tail = g[2 * i0:] if causal else g
     env.assume(b_not(arr_eq(tail, [0] * len(tail))), 'operator (its part on qubits >= i0 in causal mode) is not the identity')
-    P = M.pa.Pauli(g.copy(), p)
-    res = env.run(lambda: M.ci.diagonalize(P, i0, causal=causal))
+    P = M.pa.Pauli(g.copy(), p) if form == 'pauli' else M.pa.PauliMonomial(g.copy(), p).set_c(-2.5)
+    i0_arg = i0 if form != 'npint' else np.int64(i0)
+    res = env.run(lambda: M.ci.diagonalize(P, i0_arg, causal=causal))
     env.goal('no_exception', b_not(res.raised))
     if res.value is None:
         return
@@ -154,6 +155,8 @@ def jobs(tier):
         for i0 in range(N):
             for causal in (False, True):
                 J.append(dict(harness=('c18', 'h_diag_pauli'), params=dict(N=N, i0=i0, causal=causal), timeout_s=300, cost=N))
+                if N == 2:
+                    J.append(dict(harness=('c18', 'h_diag_pauli'), params=dict(N=N, i0=i0, causal=causal, form='monomial'), timeout_s=300, cost=N))
     for N in (1, 2):
         J.append(dict(harness=('c18', 'h_diag_state'), params=dict(N=N), timeout_s=600, cost=30))
     for N in (1, 2):
